@@ -196,24 +196,12 @@ yield1:
 	 * has been called, then off would be 0 and __ctx->bno would be
 	 * the buffer filled so far, if no more bytes could be read then
 	 * we'd proceed processing them (off < __ctx->bno + nrd */
-	if (UNLIKELY(!nrd && off < bno && ctx->cur_lno <= ctx->tot_lno)) {
-		/* last line then, unyielded :| */
-		set_loff(ctx, ctx->tot_lno, bno - ctx->buf);
-		off = bno;
-		/* count it as line and check if we need more */
-		if (++ctx->tot_lno >= MAX_NLINES) {
-			YIELD(3);
-		}
-		YIELD(4);
-	} else if (UNLIKELY(nrd <= 0 && off == ctx->buf)) {
+	if (UNLIKELY(nrd <= 0 && bno == ctx->buf)) {
 		/* special case, we worked our arses off and nothing's
 		 * in the pipe line so just fuck off here */
-		if (!ctx->bno) {
-			return -1;
-		}
-		/* go to drain mode */
-		YIELD(2);
+		return -1;
 	} else if (LIKELY(off < bno || off == ctx->buf)) {
+		/* with nothing read this is drain mode */
 		YIELD(2);
 	}
 	/* proceed to exit */
@@ -226,8 +214,13 @@ yield2:
 			if (LIKELY(nrd > 0)) {
 				break;
 			}
-			/* not concluded with \n, let's hope we're in drain mode */
-			return -1;
+			/* not concluded with \n and nothing more to come,
+			 * last line then, unyielded :| */
+			set_loff(ctx, ctx->tot_lno, bno - ctx->buf);
+			off = bno;
+			/* count it as line */
+			ctx->tot_lno++;
+			YIELD(3);
 		}
 		/* massage our status structures */
 		set_loff(ctx, ctx->tot_lno, p - ctx->buf);
@@ -248,7 +241,6 @@ yield3:
 	/* need clean up, something like unread(),
 	 * in particular leave a note in __ctx with the left over offset */
 	ctx->cur_lno = 0;
-yield4:
 	ctx->off = off - ctx->buf;
 	ctx->bno = bno - ctx->buf;
 #undef YIELD
